@@ -1,7 +1,136 @@
 import GluonModel.Sexp
-open GluonModel
+import GluonModel.TypePrint
+open GluonModel GluonModel.TypePrint
+
+/-! Requests
+  (print <width> <type>)      → (toks "tok" …)          model `print .top`
+  (reparse ann|top <type>)    → (ok <type>) | fail        model `parseAnn/parseTop (print .top t)`
+Types travel in list form (records/variants/effects with field lists); the model uses row chains. -/
+
+def strList : Sexp → Option (List String)
+  | .list xs => xs.mapM Sexp.str?
+  | _ => none
+
+mutual
+partial def tyOf : Sexp → Option Ty
+  | .list [.atom "hole"] => some .hole
+  | .list [.atom "arrow"] => some .arrow
+  | .list [.atom "con", .str n] => some (.con n)
+  | .list [.atom "var", .str n] => some (.var n)
+  | .list (.atom "proj" :: ids) => do
+    let ids ← ids.mapM Sexp.str?
+    pure (.proj ids)
+  | .list [.atom "fun", .atom k, a, r] => do
+    let a ← tyOf a
+    let r ← tyOf r
+    pure (.fn (k == "I") a r)
+  | .list [.atom "forall", vs, b] => do
+    let vs ← strList vs
+    let b ← tyOf b
+    pure (.all vs b)
+  | .list [.atom "app", f, a] => do
+    let f ← tyOf f
+    let a ← tyOf a
+    pure (.app f a)
+  | .list [.atom "record", .list tfs, .list fs, rest, cut] => do
+    let cut ← cut.toNat?
+    let tfs ← tfs.mapM tfOf
+    let fs ← fs.mapM fieldOf
+    let rest ← restOf rest
+    pure (.record cut (mkRow tfs fs rest))
+  | .list [.atom "variant", .list cs, rest] => do
+    let cs ← cs.mapM ctorOf
+    let rest ← restOf rest
+    pure (.variant (mkRow [] cs rest))
+  | .list [.atom "effect", .list fs, rest] => do
+    let fs ← fs.mapM fieldOf
+    let rest ← restOf rest
+    pure (.effect (mkRow [] fs rest))
+  | _ => none
+partial def restOf : Sexp → Option Ty
+  | .list [.atom "none"] => some .rnil
+  | .list [.atom "some", t] => tyOf t
+  | _ => none
+partial def fieldOf : Sexp → Option (String × Ty)
+  | .list [.atom "f", .str n, t] => do
+    let t ← tyOf t
+    pure (n, t)
+  | _ => none
+partial def tfOf : Sexp → Option (String × List String × Ty)
+  | .list [.atom "tf", .str n, ps, t] => do
+    let ps ← strList ps
+    let t ← tyOf t
+    pure (n, ps, t)
+  | _ => none
+partial def ctorOf : Sexp → Option (String × Ty)
+  | .list [.atom "simple", .str n, .list args] => do
+    let args ← args.mapM tyOf
+    pure (n, mkCtor args)
+  | .list [.atom "gadt", .str n, t] => do
+    let t ← tyOf t
+    pure (n, t)
+  | _ => none
+end
+
+def q (s : String) : String := Sexp.quote s
+def qs (xs : List String) : String := " ".intercalate (xs.map q)
+
+mutual
+partial def render : Ty → String
+  | .hole => "(hole)"
+  | .opaque => "(opaque)"
+  | .arrow => "(arrow)"
+  | .con n => "(con " ++ q n ++ ")"
+  | .var n => "(var " ++ q n ++ ")"
+  | .proj ids => "(proj " ++ qs ids ++ ")"
+  | .fn i a r => "(fun " ++ (if i then "I" else "E") ++ " " ++ render a ++ " " ++ render r ++ ")"
+  | .all vs b => "(forall (" ++ qs vs ++ ") " ++ render b ++ ")"
+  | .app f a => "(app " ++ render f ++ " " ++ render a ++ ")"
+  | .rnil => "(rnil)"
+  | .rfield .. => "(row)"
+  | .rtype .. => "(row)"
+  | .record cut row =>
+    "(record (" ++ " ".intercalate (rowTypes row) ++ ") (" ++ " ".intercalate (rowFields row) ++ ") "
+      ++ rowRest row ++ " " ++ toString cut ++ ")"
+  | .variant row => "(variant (" ++ " ".intercalate (rowCtors row) ++ ") " ++ rowRest row ++ ")"
+  | .effect row => "(effect (" ++ " ".intercalate (rowFields row) ++ ") " ++ rowRest row ++ ")"
+partial def rowTypes : Ty → List String
+  | .rtype n ps t rest => ("(tf " ++ q n ++ " (" ++ qs ps ++ ") " ++ render t ++ ")") :: rowTypes rest
+  | .rfield _ _ rest => rowTypes rest
+  | _ => []
+partial def rowFields : Ty → List String
+  | .rfield n t rest => ("(f " ++ q n ++ " " ++ render t ++ ")") :: rowFields rest
+  | .rtype _ _ _ rest => rowFields rest
+  | _ => []
+partial def rowCtors : Ty → List String
+  | .rfield n t rest =>
+    (if isSimple t then "(simple " ++ q n ++ " (" ++ " ".intercalate (ctorArgList t) ++ "))"
+     else "(gadt " ++ q n ++ " " ++ render t ++ ")") :: rowCtors rest
+  | .rtype _ _ _ rest => rowCtors rest
+  | _ => []
+partial def ctorArgList : Ty → List String
+  | .fn _ a r => render a :: ctorArgList r
+  | _ => []
+partial def rowRest : Ty → String
+  | .rfield _ _ rest => rowRest rest
+  | .rtype _ _ _ rest => rowRest rest
+  | .rnil => "(none)"
+  | t => "(some " ++ render t ++ ")"
+end
 
 def handle : List Sexp → String
-  | _ => "unimplemented"
+  | [.atom "print", _w, t] =>
+    match tyOf t with
+    | some t => "(toks " ++ " ".intercalate ((print .top t).map (fun k => q k.text)) ++ ")"
+    | none => "bad-request"
+  | [.atom "reparse", .atom ctx, t] =>
+    match tyOf t with
+    | some t =>
+      let toks := print .top t
+      match (if ctx == "top" then parseTop toks else parseAnn toks) with
+      | some t' => "(ok " ++ render t' ++ ")"
+      | none => "fail"
+    | none => "bad-request"
+  | _ => "bad-request"
 
 def main : IO Unit := driverLoop handle
